@@ -384,6 +384,8 @@ func Select(site string, hasDefault bool, cases ...Case) (int, interface{}, bool
 		return i, iface(v), ok
 	}
 	g = Pre(site)
+	// Post also on the panic path (send on a closed channel)
+	defer Post(g)
 	n := len(cases)
 	// seeded polling order
 	var permBuf [8]int
@@ -402,19 +404,16 @@ func Select(site string, hasDefault bool, cases ...Case) (int, interface{}, bool
 		}
 		if c.send {
 			if c.ch.TrySend(c.val) {
-				Post(g)
 				return i, nil, false
 			}
 		} else {
 			v, ok := c.ch.TryRecv()
 			if v.IsValid() {
-				Post(g)
 				return i, iface(v), ok
 			}
 		}
 	}
 	if hasDefault {
-		Post(g)
 		return -1, nil, false
 	}
 	rc := make([]reflect.SelectCase, 0, n)
@@ -426,7 +425,6 @@ func Select(site string, hasDefault bool, cases ...Case) (int, interface{}, bool
 		}
 	}
 	i, v, ok := reflect.Select(rc)
-	Post(g)
 	return i, iface(v), ok
 }
 
